@@ -209,6 +209,15 @@ def oracle(case, obs, raw):
         # ---- one peer at a time
         if len(openp) > 1:
             return (k, "more than one peer attached at the same time: pipes %s" % sorted(openp))
+        # ---- the protocol keeps reading its peer: a starved application (non-blocking receive answered NNG_EAGAIN)
+        # while the open connection holds messages the peer has written and no receive is posted on it means the
+        # protocol stopped reading (a lost re-arm): those messages are never delivered although nothing was dropped
+        if op == "recvnb" and o["rv"] == 8 and not closed:
+            for i in sorted(openp):
+                pp = o["pipes"][i]
+                if pp.get("inbox", 0) > 0 and pp.get("armed", 0) == 0:
+                    return (k, "receive found nothing (NNG_EAGAIN) although the open connection p%d holds %d message(s) the peer has written and the "
+                               "protocol has no receive posted on it: PAIR stopped reading its peer, the messages are never delivered" % (i, pp["inbox"]))
         if op == "conn" and o["newpipe"] is not None:
             n = o["newpipe"]
             if prev_open and n in openp:
